@@ -124,8 +124,22 @@ pub fn record_tantivy(n: usize, seed: u64, out: &mut dyn Write) {
     let mut id = 0;
     for _ in 0..n {
         let (mm, mut alpha) = gen_model(&mut rng, &GenOpts { with_tags: false, max_w: 5 });
+        // half of the runs use texts without any ASCII character; non-ASCII sources of the normaliser table
+        // (whose normal forms ー 。 、 may be n-grams of the model) are mixed in
+        let ascii_free = rng.gen_bool(0.5);
+        if ascii_free {
+            alpha.retain(|c| !c.is_ascii());
+            if alpha.is_empty() {
+                alpha.push('あ');
+            }
+        }
         for c in ['a', '1', '\r', '\n', '-', 'A'] {
-            if rng.gen_bool(0.3) {
+            if !ascii_free && rng.gen_bool(0.3) {
+                alpha.push(c);
+            }
+        }
+        for c in ['－', '―', '｡', '､', '～', '｢'] {
+            if rng.gen_bool(0.35) {
                 alpha.push(c);
             }
         }
